@@ -68,12 +68,21 @@ def run_grid(name):
             'lines': lines, 'draws_ok': draws_ok}
 
 
-out = {'unicast': run_grid('UNICAST_REPEAT_PARAMS'), 'multicast': run_grid('MULTICAST_REPEAT_PARAMS')}
-# a stopped sender drops the message
-t = mk_thread()
-t._quit_send_event.set()
-t._repeated_enqueue_msg('MSG', nt.MULTICAST_REPEAT_PARAMS)
-out['dropped_when_stopped'] = t._send_queue.empty()
+def params_of(name):
+    p = getattr(nt, name)
+    return [p.max_initial_delay_ms, p.repeat, p.min_delay_ms, p.max_delay_ms, p.upper_delay_ms]
+
+
+out = {'params': {'U': params_of('UNICAST_REPEAT_PARAMS'), 'M': params_of('MULTICAST_REPEAT_PARAMS')}}
+if req.get('grid', True):       # the exhaustive grid costs ~4 s: the other streams switch it off
+    out.update({'unicast': run_grid('UNICAST_REPEAT_PARAMS'), 'multicast': run_grid('MULTICAST_REPEAT_PARAMS')})
+    # a stopped sender drops the message
+    logging.disable(logging.CRITICAL)
+    t = mk_thread()
+    t._quit_send_event.set()
+    t._repeated_enqueue_msg('MSG', nt.MULTICAST_REPEAT_PARAMS)
+    out['dropped_when_stopped'] = t._send_queue.empty()
+    logging.disable(logging.NOTSET)
 
 
 # ------------------------------------------------------------------ known-message-id filter
@@ -222,4 +231,13 @@ def run_sendloop(injections):
 
 
 out['sendloop'] = [run_sendloop(x) for x in req.get('sendloop', [])]
+
+# ------------------------------------------------------------------ the whole node (real WSDiscovery + real NetworkingThread)
+if req.get('node'):
+    import os
+    sys.path.insert(0, os.path.dirname(os.path.abspath(__file__)))
+    import c15_sim
+    saved = (nt.random, nt.time)
+    out['node'] = [c15_sim.run_scenario(sc) for sc in req['node']]
+    nt.random, nt.time = saved
 print(json.dumps(out))
